@@ -155,6 +155,22 @@ def doGET {σ : Type} (e : HandlerEnv σ) : Stage HttpOut :=
       | .ok r => .ok (.get r)
       | .error _ => .ok (.plain 500 .exception)
 
+/-! ## one persistent connection: `BaseHTTPRequestHandler.handle` calls `do_POST` for request after request until
+`close_connection` is set. `do_POST` sets it when the body could not be read (the position in the stream is unknown then) and when
+there is no dispatcher. -/
+
+def serveConn {σ : Type} : List (HandlerEnv σ) → σ → List HttpOut × σ
+  | [], s => ([], s)
+  | e :: rest, s =>
+    match doPOST e s with
+    | (.error _, s') => ([], s')                      -- never happens (`doPOST_total`)
+    | (.ok o, s') =>
+      match e.readBody with
+      | .error _ => ([o], s')                         -- close_connection = True: what follows on the connection is not looked at
+      | .ok _ =>
+        if e.hasDispatcher then ((o :: (serveConn rest s').1), (serveConn rest s').2)
+        else ([o], s')
+
 /-! ## parser construction sites (the table itself is generated) -/
 
 structure ParserSite where
